@@ -107,6 +107,7 @@ class TokenRef:
         for a in mol.GetAtoms():
             if a.GetAtomicNum() != 0:
                 a.SetIntProp("widx", w)
+                a.SetIntProp("bracket", 1 if a.GetNoImplicit() else 0)
                 w += 1
         self.n_written_atoms = w
         try:
@@ -136,6 +137,8 @@ class TokenRef:
         self.idx_of = idx_of
         self.dummy_idx = [dummies[k].GetIdx() for k in range(len(descs))]
         self.natoms = len(real)
+        # atoms written in brackets: their hydrogen count is whatever the bracket says; no property speaks about it
+        self.bracket = [bool(mol.GetAtomWithIdx(g).HasProp("bracket") and mol.GetAtomWithIdx(g).GetIntProp("bracket")) for g in real]
         self.atoms = [
             (mol.GetAtomWithIdx(g).GetAtomicNum(), mol.GetAtomWithIdx(g).GetFormalCharge(), mol.GetAtomWithIdx(g).GetIsotope(), mol.GetAtomWithIdx(g).GetIsAromatic())
             for g in real
@@ -325,7 +328,10 @@ def assemble(res, bonds, open_, labels, reserved=None):
         rw.InsertMol(tr.mol)
         lab = labels[text]
         for li, g in enumerate(tr.real):
-            rw.GetAtomWithIdx(off + g).SetAtomMapNum(lab * 100 + li + 1)
+            a_ = rw.GetAtomWithIdx(off + g)
+            a_.SetAtomMapNum(lab * 100 + li + 1)
+            if tr.bracket[li]:
+                forget_bracket_hydrogens(a_)
         for k, g in enumerate(tr.dummy_idx):
             a = rw.GetAtomWithIdx(off + g)
             iso = 1 + lab * 10 + tr.desc_class[k]
@@ -346,6 +352,13 @@ def assemble(res, bonds, open_, labels, reserved=None):
     return rw
 
 
+def forget_bracket_hydrogens(atom):
+    """hydrogen count (and the radical bookkeeping that follows from it) of an atom written in brackets is not compared"""
+    atom.SetNumExplicitHs(0)
+    atom.SetNoImplicit(True)
+    atom.SetNumRadicalElectrons(0)
+
+
 def canon_of(res, bonds, open_, labels, reserved=None):
     rw = assemble(res, bonds, open_, labels, reserved)
     m = rw.GetMol()
@@ -353,6 +366,7 @@ def canon_of(res, bonds, open_, labels, reserved=None):
         Chem.SanitizeMol(m)
     except Exception as e:  # noqa
         raise RefError(f"model molecule does not sanitise: {e}")
+    Chem.RemoveStereochemistry(m)  # stereo labels are outside every property here (their meaning depends on bond insertion order)
     return Chem.MolToSmiles(m)
 
 
@@ -360,6 +374,14 @@ def plain_smiles_of_labelled(smi):
     m = Chem.MolFromSmiles(smi)
     for a in m.GetAtoms():
         a.SetAtomMapNum(0)
+    Chem.RemoveStereochemistry(m)
+    return Chem.MolToSmiles(m)
+
+
+def canon_plain(smi):
+    """canonical SMILES without stereo labels"""
+    m = Chem.MolFromSmiles(smi)
+    Chem.RemoveStereochemistry(m)
     return Chem.MolToSmiles(m)
 
 
